@@ -9,132 +9,142 @@ pub type F162 = Bvf<u16, 2>;
 pub type F641 = Bvf<u64, 1>;
 pub type F642 = Bvf<u64, 2>;
 
-fn wrap_sub(a: u128, b: u128, n: usize) -> u128 { a.wrapping_sub(b) & mask128(n) }
-fn wrap_add(a: u128, b: u128, n: usize) -> u128 { a.wrapping_add(b) & mask128(n) }
-fn wrap_mul(a: u128, b: u128, n: usize) -> u128 { a.wrapping_mul(b) & mask128(n) }
+
+/// reference-model arithmetic at a given machine width (u32 for the small Kani types, u128 for the 128-bit ones)
+macro_rules! model_mod { ($m:ident, $M:ty, $BITS:expr) => {
+    pub mod $m {
+        pub type M = $M;
+        pub const BITS: usize = $BITS;
+        pub fn mask(n: usize) -> M { if n >= BITS { M::MAX } else { ((1 as M) << n) - 1 } }
+        pub fn of(v: u128) -> M { v as M }
+        pub fn shl(v: M, k: usize) -> M { if k >= BITS { 0 } else { v << k } }
+        pub fn shr(v: M, k: usize) -> M { if k >= BITS { 0 } else { v >> k } }
+    }
+}}
+model_mod!(m32, u32, 32);
+model_mod!(m128, u128, 128);
 
 /// binary operator families for a (lhs type, rhs type) pair
-macro_rules! binops { ($and:ident, $or:ident, $xor:ident, $add:ident, $sub:ident, $mul:ident, $cmp:ident, $A:ty, $B:ty) => {
+macro_rules! binops { ($mm:ident, $and:ident, $or:ident, $xor:ident, $add:ident, $sub:ident, $mul:ident, $cmp:ident, $A:ty, $B:ty) => {
     pub fn $and<S: Src>(s: &mut S) {
         let a = <$A as Raw>::gen(s); let b = <$B as Raw>::gen(s);
-        let (va, la, vb) = (a.val(), a.len(), b.val());
+        let (va, la, vb) = ($mm::of(a.val()), a.len(), $mm::of(b.val()));
         let mut r = a.clone(); r &= &b;
-        assert!(r.wf()); assert!(r.len() == la); assert!(r.val() == (va & vb) & mask128(la));
+        assert!(r.wf()); assert!(r.len() == la); assert!($mm::of(r.val()) == (va & vb) & $mm::mask(la));
     }
     pub fn $or<S: Src>(s: &mut S) {
         let a = <$A as Raw>::gen(s); let b = <$B as Raw>::gen(s);
-        let (va, la, vb) = (a.val(), a.len(), b.val());
+        let (va, la, vb) = ($mm::of(a.val()), a.len(), $mm::of(b.val()));
         let mut r = a.clone(); r |= &b;
-        assert!(r.wf()); assert!(r.len() == la); assert!(r.val() == (va | vb) & mask128(la));
+        assert!(r.wf()); assert!(r.len() == la); assert!($mm::of(r.val()) == (va | vb) & $mm::mask(la));
     }
     pub fn $xor<S: Src>(s: &mut S) {
         let a = <$A as Raw>::gen(s); let b = <$B as Raw>::gen(s);
-        let (va, la, vb) = (a.val(), a.len(), b.val());
+        let (va, la, vb) = ($mm::of(a.val()), a.len(), $mm::of(b.val()));
         let mut r = a.clone(); r ^= &b;
-        assert!(r.wf()); assert!(r.len() == la); assert!(r.val() == (va ^ vb) & mask128(la));
+        assert!(r.wf()); assert!(r.len() == la); assert!($mm::of(r.val()) == (va ^ vb) & $mm::mask(la));
     }
     pub fn $add<S: Src>(s: &mut S) {
         let a = <$A as Raw>::gen(s); let b = <$B as Raw>::gen(s);
-        let (va, la, vb) = (a.val(), a.len(), b.val());
+        let (va, la, vb) = ($mm::of(a.val()), a.len(), $mm::of(b.val()));
         let mut r = a.clone(); r += &b;
-        assert!(r.wf()); assert!(r.len() == la); assert!(r.val() == wrap_add(va, vb, la));
+        assert!(r.wf()); assert!(r.len() == la); assert!($mm::of(r.val()) == va.wrapping_add(vb) & $mm::mask(la));
     }
     pub fn $sub<S: Src>(s: &mut S) {
         let a = <$A as Raw>::gen(s); let b = <$B as Raw>::gen(s);
-        let (va, la, vb) = (a.val(), a.len(), b.val());
+        let (va, la, vb) = ($mm::of(a.val()), a.len(), $mm::of(b.val()));
         let mut r = a.clone(); r -= &b;
-        assert!(r.wf()); assert!(r.len() == la); assert!(r.val() == wrap_sub(va, vb, la));
+        assert!(r.wf()); assert!(r.len() == la); assert!($mm::of(r.val()) == va.wrapping_sub(vb) & $mm::mask(la));
     }
     pub fn $mul<S: Src>(s: &mut S) {
         let a = <$A as Raw>::gen(s); let b = <$B as Raw>::gen(s);
-        let (va, la, vb) = (a.val(), a.len(), b.val());
+        let (va, la, vb) = ($mm::of(a.val()), a.len(), $mm::of(b.val()));
         let r = &a * &b;
-        assert!(r.wf()); assert!(r.len() == la); assert!(r.val() == wrap_mul(va, vb, la));
+        assert!(r.wf()); assert!(r.len() == la); assert!($mm::of(r.val()) == va.wrapping_mul(vb) & $mm::mask(la));
     }
     pub fn $cmp<S: Src>(s: &mut S) {
         let a = <$A as Raw>::gen(s); let b = <$B as Raw>::gen(s);
-        let (va, vb) = (a.val(), b.val());
+        let (va, vb) = ($mm::of(a.val()), $mm::of(b.val()));
         assert!((a == b) == (va == vb));
         assert!(a.partial_cmp(&b) == Some(va.cmp(&vb)));
         assert!((a < b) == (va < vb)); assert!((a >= b) == (va >= vb));
     }
 }}
-binops!(and__f82_f82, or__f82_f82, xor__f82_f82, add__f82_f82, sub__f82_f82, mul__f82_f82, cmp__f82_f82, F82, F82);
-binops!(and__f82_f162, or__f82_f162, xor__f82_f162, add__f82_f162, sub__f82_f162, mul__f82_f162, cmp__f82_f162, F82, F162);
-binops!(and__f162_f83, or__f162_f83, xor__f162_f83, add__f162_f83, sub__f162_f83, mul__f162_f83, cmp__f162_f83, F162, F83);
-binops!(and__f82_bvd, or__f82_bvd, xor__f82_bvd, add__f82_bvd, sub__f82_bvd, mul__f82_bvd, cmp__f82_bvd, F82, Bvd);
-binops!(and__bvd_bvd, or__bvd_bvd, xor__bvd_bvd, add__bvd_bvd, sub__bvd_bvd, mul__bvd_bvd, cmp__bvd_bvd, Bvd, Bvd);
-binops!(and__bvd_f82, or__bvd_f82, xor__bvd_f82, add__bvd_f82, sub__bvd_f82, mul__bvd_f82, cmp__bvd_f82, Bvd, F82);
-binops!(and__bvd_f642, or__bvd_f642, xor__bvd_f642, add__bvd_f642, sub__bvd_f642, mul__bvd_f642, cmp__bvd_f642, Bvd, F642);
-binops!(and__bv_bv, or__bv_bv, xor__bv_bv, add__bv_bv, sub__bv_bv, mul__bv_bv, cmp__bv_bv, Bv, Bv);
+binops!(m32, and__f82_f82, or__f82_f82, xor__f82_f82, add__f82_f82, sub__f82_f82, mul__f82_f82, cmp__f82_f82, F82, F82);
+binops!(m32, and__f82_f162, or__f82_f162, xor__f82_f162, add__f82_f162, sub__f82_f162, mul__f82_f162, cmp__f82_f162, F82, F162);
+binops!(m32, and__f162_f83, or__f162_f83, xor__f162_f83, add__f162_f83, sub__f162_f83, mul__f162_f83, cmp__f162_f83, F162, F83);
+binops!(m128, and__f82_bvd, or__f82_bvd, xor__f82_bvd, add__f82_bvd, sub__f82_bvd, mul__f82_bvd, cmp__f82_bvd, F82, Bvd);
+binops!(m128, and__bvd_bvd, or__bvd_bvd, xor__bvd_bvd, add__bvd_bvd, sub__bvd_bvd, mul__bvd_bvd, cmp__bvd_bvd, Bvd, Bvd);
+binops!(m128, and__bvd_f82, or__bvd_f82, xor__bvd_f82, add__bvd_f82, sub__bvd_f82, mul__bvd_f82, cmp__bvd_f82, Bvd, F82);
+binops!(m128, and__bvd_f642, or__bvd_f642, xor__bvd_f642, add__bvd_f642, sub__bvd_f642, mul__bvd_f642, cmp__bvd_f642, Bvd, F642);
+binops!(m128, and__bv_bv, or__bv_bv, xor__bv_bv, add__bv_bv, sub__bv_bv, mul__bv_bv, cmp__bv_bv, Bv, Bv);
 
 /// unary / single-vector families
-macro_rules! unops { ($shl:ident, $shr:ident, $shlin:ident, $shrin:ident, $rot:ident, $cnt:ident, $edit:ident, $slice:ident, $not:ident, $A:ty) => {
+macro_rules! unops { ($mm:ident, $shl:ident, $shr:ident, $shlin:ident, $shrin:ident, $rot:ident, $cnt:ident, $edit:ident, $slice:ident, $not:ident, $A:ty) => {
     pub fn $shl<S: Src>(s: &mut S) {
         let a = <$A as Raw>::gen(s); let k = s.u128();
-        let (va, la) = (a.val(), a.len());
+        let (va, la) = ($mm::of(a.val()), a.len());
         let r = a.clone() << k;
-        let e = if k >= 128 { 0 } else { (va << (k as u32)) & mask128(la) };
-        assert!(r.wf()); assert!(r.len() == la); assert!(r.val() == e);
+        let e = if k >= 128 { 0 } else { $mm::shl(va, k as usize) & $mm::mask(la) };
+        assert!(r.wf()); assert!(r.len() == la); assert!($mm::of(r.val()) == e);
         let k8 = (k & 0xff) as u8;
         let r8 = a.clone() << k8;
-        let e8 = if k8 >= 128 { 0 } else { (va << (k8 as u32)) & mask128(la) };
-        assert!(r8.wf()); assert!(r8.val() == e8);
+        assert!(r8.wf()); assert!($mm::of(r8.val()) == $mm::shl(va, k8 as usize) & $mm::mask(la));
     }
     pub fn $shr<S: Src>(s: &mut S) {
         let a = <$A as Raw>::gen(s); let k = s.u128();
-        let (va, la) = (a.val(), a.len());
+        let (va, la) = ($mm::of(a.val()), a.len());
         let r = a.clone() >> k;
-        let e = if k >= 128 { 0 } else { va >> (k as u32) };
-        assert!(r.wf()); assert!(r.len() == la); assert!(r.val() == e);
+        let e = if k >= 128 { 0 } else { $mm::shr(va, k as usize) };
+        assert!(r.wf()); assert!(r.len() == la); assert!($mm::of(r.val()) == e);
         let k64 = (k & 0xff) as u64;
         let r64 = a.clone() >> k64;
-        let e64 = if k64 >= 128 { 0 } else { va >> (k64 as u32) };
-        assert!(r64.wf()); assert!(r64.val() == e64);
+        assert!(r64.wf()); assert!($mm::of(r64.val()) == $mm::shr(va, k64 as usize));
     }
     pub fn $shlin<S: Src>(s: &mut S) {
         let a = <$A as Raw>::gen(s); let b = s.bit();
-        let (va, la) = (a.val(), a.len());
+        let (va, la) = ($mm::of(a.val()), a.len());
         let mut r = a.clone();
         let out = r.shl_in(b);
         assert!(r.wf()); assert!(r.len() == la);
         if la == 0 { assert!(out == b); } else {
-            assert!(bitval(out) == (va >> (la - 1)) & 1);
-            assert!(r.val() == ((va << 1) | bitval(b)) & mask128(la));
+            assert!($mm::of(bitval(out)) == $mm::shr(va, la - 1) & 1);
+            assert!($mm::of(r.val()) == ($mm::shl(va, 1) | $mm::of(bitval(b))) & $mm::mask(la));
         }
     }
     pub fn $shrin<S: Src>(s: &mut S) {
         let a = <$A as Raw>::gen(s); let b = s.bit();
-        let (va, la) = (a.val(), a.len());
+        let (va, la) = ($mm::of(a.val()), a.len());
         let mut r = a.clone();
         let out = r.shr_in(b);
         assert!(r.wf()); assert!(r.len() == la);
         if la == 0 { assert!(out == b); } else {
-            assert!(bitval(out) == va & 1);
-            assert!(r.val() == (va >> 1) | (bitval(b) << (la - 1)));
+            assert!($mm::of(bitval(out)) == va & 1);
+            assert!($mm::of(r.val()) == $mm::shr(va, 1) | $mm::shl($mm::of(bitval(b)), la - 1));
         }
     }
     pub fn $rot<S: Src>(s: &mut S) {
         let a = <$A as Raw>::gen(s);
-        let (va, la) = (a.val(), a.len());
+        let (va, la) = ($mm::of(a.val()), a.len());
         let k = s.upto(128);
         s.assume(k <= la);
         let mut l = a.clone(); l.rotl(k);
         let mut r = a.clone(); r.rotr(k);
         assert!(l.wf() && r.wf()); assert!(l.len() == la && r.len() == la);
         if la > 0 {
-            let el = if k == 0 || k == la { va } else { ((va << k) | (va >> (la - k))) & mask128(la) };
-            let er = if k == 0 || k == la { va } else { ((va >> k) | (va << (la - k))) & mask128(la) };
-            assert!(l.val() == el); assert!(r.val() == er);
+            let el = ($mm::shl(va, k) | $mm::shr(va, la - k)) & $mm::mask(la);
+            let er = ($mm::shr(va, k) | $mm::shl(va, la - k)) & $mm::mask(la);
+            assert!($mm::of(l.val()) == el); assert!($mm::of(r.val()) == er);
         }
     }
     pub fn $cnt<S: Src>(s: &mut S) {
         let a = <$A as Raw>::gen(s);
-        let (va, la) = (a.val(), a.len());
-        let lz = if la == 0 { 0 } else { ((va << (128 - la)).leading_zeros() as usize).min(la) };
-        let lo = if la == 0 { 0 } else { ((va << (128 - la)).leading_ones() as usize).min(la) };
-        let tz = (va.trailing_zeros() as usize).min(la);
-        let to = (va.trailing_ones() as usize).min(la);
+        let (va, la) = ($mm::of(a.val()), a.len());
+        // run lengths straight from the definition (bit loops; la is at most 128)
+        let mut lz = 0; while lz < la && $mm::shr(va, la - 1 - lz) & 1 == 0 { lz += 1; }
+        let mut lo = 0; while lo < la && $mm::shr(va, la - 1 - lo) & 1 == 1 { lo += 1; }
+        let mut tz = 0; while tz < la && $mm::shr(va, tz) & 1 == 0 { tz += 1; }
+        let mut to = 0; while to < la && $mm::shr(va, to) & 1 == 1 { to += 1; }
         assert!(a.leading_zeros() == lz); assert!(a.leading_ones() == lo);
         assert!(a.trailing_zeros() == tz); assert!(a.trailing_ones() == to);
         assert!(a.significant_bits() == la - lz);
@@ -142,60 +152,66 @@ macro_rules! unops { ($shl:ident, $shr:ident, $shlin:ident, $shrin:ident, $rot:i
     }
     pub fn $edit<S: Src>(s: &mut S) {
         let a = <$A as Raw>::gen(s);
-        let (va, la, cap) = (a.val(), a.len(), a.capacity());
+        let (va, la, cap) = ($mm::of(a.val()), a.len(), a.capacity());
         let fixed = <$A as Raw>::KIND == "bvf";
-        let n = s.upto(128); let b = s.bit();
+        let n = s.upto($mm::BITS); let b = s.bit();
         s.assume(!fixed || n <= cap);
         let mut r = a.clone(); r.resize(n, b);
-        let fill = if bitval(b) == 1 && n > la { mask128(n) & !mask128(la) } else { 0 };
-        assert!(r.wf()); assert!(r.len() == n); assert!(r.val() == (va & mask128(n)) | fill);
+        let fill = if bitval(b) == 1 && n > la { $mm::mask(n) & !$mm::mask(la) } else { 0 };
+        assert!(r.wf()); assert!(r.len() == n); assert!($mm::of(r.val()) == (va & $mm::mask(n)) | fill);
         // shrink then grow exposes only fill bits
-        let mut t = a.clone(); t.truncate(n); t.sign_extend(la);
-        assert!(t.wf());
+        let mut t = a.clone(); t.truncate(n); t.resize(la, Bit::Zero);
+        assert!(t.wf()); assert!($mm::of(t.val()) == va & $mm::mask(n));
+        let mut u = a.clone(); u.truncate(n); u.sign_extend(la);
+        assert!(u.wf());
+        if n < la && n > 0 {
+            let sign = $mm::shr(va, n - 1) & 1;
+            assert!($mm::of(u.val()) == (va & $mm::mask(n)) | (if sign == 1 { $mm::mask(la) & !$mm::mask(n) } else { 0 }));
+        }
         // push / pop
-        if (!fixed || la < cap) && la < 128 {
+        if (!fixed || la < cap) && la < $mm::BITS {
             let mut p = a.clone(); p.push(b);
-            assert!(p.wf()); assert!(p.len() == la + 1); assert!(p.val() == va | (bitval(b) << la));
-            assert!(p.pop() == Some(b)); assert!(p.wf()); assert!(p.val() == va && p.len() == la);
+            assert!(p.wf()); assert!(p.len() == la + 1); assert!($mm::of(p.val()) == va | $mm::shl($mm::of(bitval(b)), la));
+            assert!(p.pop() == Some(b)); assert!(p.wf()); assert!($mm::of(p.val()) == va && p.len() == la);
         }
         if la > 0 {
-            let i = s.upto(127); s.assume(i < la);
+            let i = s.upto($mm::BITS - 1); s.assume(i < la);
             let mut q = a.clone(); q.set(i, b);
-            assert!(q.wf()); assert!(q.val() == (va & !(1u128 << i)) | (bitval(b) << i));
-            assert!(bitval(a.get(i)) == (va >> i) & 1);
+            assert!(q.wf()); assert!($mm::of(q.val()) == (va & !$mm::shl(1, i)) | $mm::shl($mm::of(bitval(b)), i));
+            assert!($mm::of(bitval(a.get(i))) == $mm::shr(va, i) & 1);
         }
     }
     pub fn $slice<S: Src>(s: &mut S) {
         let a = <$A as Raw>::gen(s);
-        let (va, la) = (a.val(), a.len());
-        let st = s.upto(128); let en = s.upto(128);
+        let (va, la) = ($mm::of(a.val()), a.len());
+        let st = s.upto($mm::BITS); let en = s.upto($mm::BITS);
         s.assume(st <= en && en <= la);
         let r = a.copy_range(st..en);
         assert!(r.wf()); assert!(r.len() == en - st);
-        assert!(r.val() == if st >= 128 { 0 } else { (va >> st) & mask128(en - st) });
+        assert!($mm::of(r.val()) == $mm::shr(va, st) & $mm::mask(en - st));
         let mut lo = a.clone();
         let hi = lo.split_off(st);
         assert!(lo.wf() && hi.wf()); assert!(lo.len() == st && hi.len() == la - st);
-        assert!(lo.val() == va & mask128(st));
-        assert!(hi.val() == if st >= 128 { 0 } else { va >> st });
+        assert!($mm::of(lo.val()) == va & $mm::mask(st));
+        assert!($mm::of(hi.val()) == $mm::shr(va, st));
         assert!(a.first() == if la == 0 { None } else { Some(if va & 1 == 1 { Bit::One } else { Bit::Zero }) });
-        assert!(a.last() == if la == 0 { None } else { Some(if (va >> (la - 1)) & 1 == 1 { Bit::One } else { Bit::Zero }) });
+        assert!(a.last() == if la == 0 { None } else { Some(if $mm::shr(va, la - 1) & 1 == 1 { Bit::One } else { Bit::Zero }) });
     }
     pub fn $not<S: Src>(s: &mut S) {
         let a = <$A as Raw>::gen(s);
-        let (va, la) = (a.val(), a.len());
+        let (va, la) = ($mm::of(a.val()), a.len());
         let r = !&a;
-        assert!(r.wf()); assert!(r.len() == la); assert!(r.val() == !va & mask128(la));
+        assert!(r.wf()); assert!(r.len() == la); assert!($mm::of(r.val()) == !va & $mm::mask(la));
         let r2 = !a.clone();
-        assert!(r2.wf()); assert!(r2.val() == !va & mask128(la));
+        assert!(r2.wf()); assert!($mm::of(r2.val()) == !va & $mm::mask(la));
     }
 }}
-unops!(shl__f82, shr__f82, shlin__f82, shrin__f82, rot__f82, cnt__f82, edit__f82, slice__f82, not__f82, F82);
-unops!(shl__f83, shr__f83, shlin__f83, shrin__f83, rot__f83, cnt__f83, edit__f83, slice__f83, not__f83, F83);
-unops!(shl__f162, shr__f162, shlin__f162, shrin__f162, rot__f162, cnt__f162, edit__f162, slice__f162, not__f162, F162);
-unops!(shl__f642, shr__f642, shlin__f642, shrin__f642, rot__f642, cnt__f642, edit__f642, slice__f642, not__f642, F642);
-unops!(shl__bvd, shr__bvd, shlin__bvd, shrin__bvd, rot__bvd, cnt__bvd, edit__bvd, slice__bvd, not__bvd, Bvd);
-unops!(shl__bv, shr__bv, shlin__bv, shrin__bv, rot__bv, cnt__bv, edit__bv, slice__bv, not__bv, Bv);
+unops!(m32, shl__f82, shr__f82, shlin__f82, shrin__f82, rot__f82, cnt__f82, edit__f82, slice__f82, not__f82, F82);
+unops!(m32, shl__f83, shr__f83, shlin__f83, shrin__f83, rot__f83, cnt__f83, edit__f83, slice__f83, not__f83, F83);
+unops!(m32, shl__f162, shr__f162, shlin__f162, shrin__f162, rot__f162, cnt__f162, edit__f162, slice__f162, not__f162, F162);
+unops!(m128, shl__f642, shr__f642, shlin__f642, shrin__f642, rot__f642, cnt__f642, edit__f642, slice__f642, not__f642, F642);
+unops!(m128, shl__bvd, shr__bvd, shlin__bvd, shrin__bvd, rot__bvd, cnt__bvd, edit__bvd, slice__bvd, not__bvd, Bvd);
+unops!(m128, shl__bv, shr__bv, shlin__bv, shrin__bv, rot__bv, cnt__bv, edit__bv, slice__bv, not__bv, Bv);
 
 /// name -> harness, for native replay; the same list drives the Kani proof declarations
 macro_rules! registry { ($($name:ident),* $(,)?) => {
@@ -206,7 +222,7 @@ macro_rules! registry { ($($name:ident),* $(,)?) => {
     #[cfg(kani)]
     mod proofs {
         use super::*;
-        $( #[kani::proof] #[kani::unwind(20)] fn $name() { super::$name(&mut KaniSrc) } )*
+        $( #[kani::proof] #[kani::unwind(34)] fn $name() { super::$name(&mut KaniSrc) } )*
     }
 }}
 registry!(
